@@ -1,7 +1,7 @@
 (* C09 -- string literals decode exactly, at every length and alignment. Statements only. *)
 From Coq Require Import List NArith Arith Bool.
 From SonicV Require Import Base.Blocks Spec.Ref Model.SkipStr Model.Inplace Model.TablesDefs Model.TablesOk Gen.Tables Model.EscRoundTrip.
-From SonicV Require Model.Utf8.
+From SonicV Require Model.Utf8 Model.Lossy.
 From SonicV Require Model.InplaceClosed.
 Import ListNotations.
 Local Close Scope N_scope.
@@ -79,3 +79,13 @@ Proof. exact Utf8.run_encode. Qed.
 Theorem decoded_text_is_valid_utf8 : forall fuel l d h rest,
   utf8_valid l = true -> Ref.str_body true fuel l = Some (d, h, rest) -> utf8_valid d = true /\ utf8_valid rest = true.
 Proof. exact Utf8.decoded_string_is_valid_utf8. Qed.
+
+(* lossy mode: the replacement conversion always yields valid UTF-8, changes nothing in valid UTF-8,
+   and a literal the strict decoder accepts decodes to the same text in lossy mode *)
+Theorem lossy_conversion_is_always_valid : forall l, utf8_valid (utf8_lossy l) = true.
+Proof. exact Lossy.lossy_output_is_valid. Qed.
+Theorem lossy_conversion_keeps_valid_text : forall l, utf8_valid l = true -> utf8_lossy l = l.
+Proof. exact Lossy.lossy_is_identity_on_valid. Qed.
+Theorem lossy_mode_changes_nothing_else : forall lit d h,
+  decode_literal false lit = Some (d, h) -> decode_literal true lit = Some (d, h).
+Proof. exact Lossy.lossy_literal_agrees_with_strict. Qed.
